@@ -498,6 +498,10 @@ func genConc(prop string, seed uint64, tier string) *ConcScenario {
 					}
 				}
 			}
+			if prop == "C02" && g.r.Bool(0.4) {
+				sc.CBKind = 6 // traversing callback
+				sc.Ctor.CB = sc.Ctor.Ctor != "plain" && g.r.Bool(0.5)
+			}
 			var clk []Op
 			for i := 0; i < 2+g.r.Intn(5); i++ {
 				clk = append(clk, Op{K: XTick, D: int64(1 + g.r.Intn(5))})
@@ -526,6 +530,28 @@ func genConc(prop string, seed uint64, tier string) *ConcScenario {
 	}
 	if prop == "C06" && cacheFam && g.r.Bool(0.25) {
 		g.c06MovingClock(sc)
+	}
+	if prop == "C02" && cacheFam && g.r.Bool(0.06) {
+		// sweeps held open by a slow callback while the clock ticks, next to
+		// readers and traversals: what a reader sees is judged by the clock of
+		// its own call (timed linearizability model)
+		g.c06MovingClock(sc)
+		ph := &sc.Phases[0]
+		nk := len(sc.Setup)
+		for i := 0; i < 1+g.r.Intn(2); i++ {
+			var prog []Op
+			for j := 0; j < 1+g.r.Intn(3); j++ {
+				switch g.r.Intn(4) {
+				case 0:
+					prog = append(prog, Op{K: CItems})
+				case 1:
+					prog = append(prog, Op{K: CGet, Key: g.r.Intn(nk)})
+				default:
+					prog = append(prog, Op{K: CRange})
+				}
+			}
+			ph.Tasks = append(ph.Tasks, prog)
+		}
 	}
 	if prop == "C08" && cacheFam && g.r.Bool(0.15) {
 		g.c06MovingClock(sc) // overlapping sweeps under a ticking clock: every completed sweep must be complete
